@@ -250,6 +250,11 @@ def register_requests(S):
                         "routed_by_kind": (
                    "n_events() == 1 + n_callees('_unbox') + n_callees('_unbox_exc') and "
                    "n_callees('_dispatch_request') + n_callees('_seq_request_callback') == 1", P8),
+                   # C10's accounting assumes that every reference in flight becomes a proxy (whose finalizer returns the count):
+                   # a reply that arrives is unboxed, whoever waits - or no longer waits - for it
+                   "every_arriving_reply_is_unboxed": (
+                   "implies(nth_item(decoded(data), 0) == MSG_REPLY, n_callees('_unbox') == 1 and "
+                   "same(callee_arg('_unbox', 0, 'package'), nth_item(decoded(data), 2)))", ["C10", "C08"]),
                    "request_layout": (
                    "implies(n_callees('_dispatch_request') == 1, "
                    "nth_item(decoded(data), 0) == MSG_REQUEST and "
